@@ -104,6 +104,10 @@ type D struct {
 	SimTime  time.Duration
 	V        *Violation
 	Discard  string // non-empty: run discarded (reason), not counted as covered
+	// Findings: property violations of a class the simulator can contain (it stops comparing the
+	// affected component and lets the run continue). They are reported exactly like violations —
+	// VIOLATION unless the exact (invariant, signature) is listed in known_findings.json.
+	Findings []Violation
 	MaxSteps int
 }
 
@@ -187,6 +191,42 @@ func (d *D) TraceSig() uint64 { return d.traceSig }
 
 func (d *D) Fault(kind string) { d.Faults[kind]++ }
 func (d *D) Probe(name string) { d.Probes[name]++ }
+
+// Finding records a containable violation (first per signature); the run continues.
+func (d *D) Finding(invariant, signature, format string, a ...any) {
+	for _, f := range d.Findings {
+		if f.Invariant == invariant && f.Signature == signature {
+			return
+		}
+	}
+	v := Violation{Invariant: invariant, Signature: signature, Text: fmt.Sprintf(format, a...), AtStep: len(d.Steps)}
+	d.Findings = append(d.Findings, v)
+	d.Logf("FINDING %s %s %s", invariant, signature, v.Text)
+}
+
+// Outcome is what the run reports: the violation if any, else the first finding.
+func (d *D) Outcome() *Violation {
+	if d.V != nil {
+		return d.V
+	}
+	if len(d.Findings) > 0 {
+		return &d.Findings[0]
+	}
+	return nil
+}
+
+// has reports whether the run produced (invariant, signature) as violation or finding.
+func (d *D) has(inv, sig string) *Violation {
+	if d.V != nil && d.V.Invariant == inv && d.V.Signature == sig {
+		return d.V
+	}
+	for i := range d.Findings {
+		if d.Findings[i].Invariant == inv && d.Findings[i].Signature == sig {
+			return &d.Findings[i]
+		}
+	}
+	return nil
+}
 
 // Violate records the first violation of the run.
 func (d *D) Violate(invariant, signature, format string, a ...any) {
